@@ -187,8 +187,9 @@ def _marker_walk(ctx):
               'start markers advance the working Twp/Rge / section')
     # a dictated layout reaches the chunk parsers (see also C11)
     pp = ctx.repo.func('PLSSParser.parse')
-    asg = [n for n in walk_local(pp.node) if isinstance(n, ast.Assign) and norm(n.targets[0]) == 'chunk_layout'
-           and norm(n.value) == 'self.layout']
-    ok = bool(asg) and any(pol and 'self.mandate_layout' in norm(tt) for tt, pol in guards(asg[0]))
-    ctx.check(ok, 'TBL', 'a dictated layout is handed to every ChunkParser',
-              detail_bad="ChunkParsers get layout=None under a mandated layout", key="TBL|PLSSParser.parse|mandate")
+    from .c11 import chunk_layout_conditions, mentions
+    conds = chunk_layout_conditions(pp)
+    ok = any(mentions(pp, c, 'mandate_layout') for c in conds)
+    ctx.tri(ok, bool(conds) and not ok, 'TBL', 'a dictated layout is handed to every ChunkParser',
+            detail_bad="ChunkParsers only get a layout under a condition that ignores mandate_layout: a dictated "
+                       "layout reaches them as None", key="TBL|PLSSParser.parse|mandate")
